@@ -3,7 +3,7 @@ import os, re, subprocess
 import common
 
 LEAN_MODULES = ['OpusProps.C01', 'OpusProps.EndToEndMs']
-EXTENSIONS = ['C01celtcallees2']   # extension slices merged into this property's check (tools/EXT_BRIEF.md)
+EXTENSIONS = ['C01celtcallees2', 'C01silkapi']   # extension slices merged into this property's check (tools/EXT_BRIEF.md)
 GEN = ['CeltIdxConsts']
 SOURCES = ['celt/celt_lpc.c', 'celt/pitch.c', 'celt/pitch.h', 'celt/mdct.c', 'src/opus_decoder.c', 'src/opus.c', 'src/opus_multistream_decoder.c', 'src/opus_projection_decoder.c',
            'src/opus_private.h', 'include/opus.h', 'celt/celt_decoder.c', 'celt/entdec.c', 'celt/stack_alloc.h',
